@@ -208,7 +208,7 @@ def reduced_sdl(sdl: str, thin: bool = False) -> Optional[str]:
         return None
 
 
-DECOY_KINDS = ["thin", "same", "part", "all"]
+DECOY_KINDS = ["thin", "same", "part", "all", "leaves"]
 
 
 def decoy_generations(root: Path, sdl: str, queries: Optional[str], other: Optional[Tuple[str, str]] = None, config: Optional[Dict[str, Any]] = None,
@@ -225,8 +225,8 @@ def decoy_generations(root: Path, sdl: str, queries: Optional[str], other: Optio
         jobs.append(("same_inputs", sdl, queries))
     if other is not None and kind == "all":
         jobs.append(("other_inputs", other[0], other[1]))
-    for label, thin in (("part_of_the_schema_same_names", False), ("same_type_names_fewer_fields", True)):
-        if kind == "all" or kind == ("thin" if thin else "part"):
+    for label, thin in (("part_of_the_schema_same_names", False), ("same_type_names_fewer_fields", True), ("same_type_names_leaf_fields_only", "leaves")):
+        if kind == "all" or kind == (thin if isinstance(thin, str) else ("thin" if thin else "part")):
             smaller = reduced_sdl(sdl, thin=thin)
             if smaller is not None:
                 jobs.append((label, smaller, "query VfDecoy { __typename }"))
